@@ -700,7 +700,7 @@ def rule_axis_table(ctx, py, tu):
         if n.get("kind") == "IfStmt":
             c = cxfe.raw_kids(n)[0]
             ps = {name_of(x) for x in walk(c) if x.get("kind") == "DeclRefExpr" and
-                  str(name_of(x)).startswith("boundary_conditions_")}
+                  str(name_of(x)).startswith("boundary_conditions_") and name_of(x) in f.param_names()}
             if not ps:
                 continue
             for s in cxa.all_stores(cxfe.raw_kids(n)[1]):
